@@ -465,14 +465,14 @@ def check(pid, tier, scratch, replay):
         if d['prop'] != 'HARNESS':
             first_dev[d['id']] = min(first_dev.get(d['id'], 1 << 60), d['line'])
     harness_devs = [d for d in devs if d['prop'] == 'HARNESS' and not (d['tag'] == 'operation-not-usable' and first_dev.get(d['id'], 1 << 60) < d['line'])]
-    if harness_devs:
-        raise Infra('the trace specification rejects the driver itself: %s' % json.dumps(harness_devs[0])[:700])
+    # (raised below, after the deviations of the property have been reproduced alone: a driver that lost its way in one
+    # history - e.g. because an import restored fewer addresses than the code as found does - does not hide a violation
+    # that another history shows and that reproduces on its own)
     # a history that the driver had to cut short (a precondition of its next operation was lost) must show a deviation
     dev_ids = set(d['id'] for d in devs)
     cut = [(j, r) for j, r in zip(jobs, results) if r and r.get('cut')]
-    for j, r in cut:
-        if j['id'] not in dev_ids:
-            raise Infra('history %s was cut short (%s) although no recorded line deviates' % (j['id'], r['cut']))
+    cut_unexplained = ['history %s was cut short (%s) although no recorded line deviates' % (j['id'], r['cut'])
+                       for j, r in cut if j['id'] not in dev_ids]   # (raised below, for the same reason)
     # a trace recorded twice (first run died half-way, then re-run alone) is judged twice: keep one deviation per (id, line, tag)
     seen, uniq = set(), []
     for d in devs:
@@ -530,6 +530,10 @@ def check(pid, tier, scratch, replay):
         print('VIOLATION property=%s replay=%s' % (pid, pth))
         print('  clause: %s at line %d of the trace: %s -> %s %s' % (first['tag'], first['rel'], describe_op(first['op']), first['op']['res'], first['op']['err']))
         print('  history: %s' % describe(j['h']))
+    if harness_devs and not violations:
+        raise Infra('the trace specification rejects the driver itself: %s' % json.dumps(harness_devs[0])[:700])
+    if cut_unexplained and not violations:
+        raise Infra(cut_unexplained[0])
     for jd, r in died:
         # a wallet operation that kills the process is no answer at all: MUST-ACCEPT / MUST-REJECT both failed
         pth = vlib.save_replay(pid, '%s-died-%s' % (tier, vlib.short_hash(jd['id'])), dict(property=pid, job=jd, result=r,
